@@ -108,6 +108,34 @@ impl Runner for TalkRunner {
                 }
                 let req = Request { id: RequestId(ridb.clone()), body: RequestBody::Talk { protocol: p.clone(), request: q.clone() } };
                 let before = self.r.talks.len();
+                // the application is not reading its events and the stream is full: the service cannot
+                // hand the request over, the object is dropped at once - one empty TALKRESP, no more
+                let queue_full = self.r.insts[&'T'].events_paused;
+                if queue_full {
+                    self.meta.push((ridb.clone(), na.clone(), 0));
+                    let mi = self.meta.len() - 1;
+                    let _ = self.r.insts[&'T'].hout.try_send(HandlerOut::Request(na.clone(), Box::new(req)));
+                    let so = self.r.observe('T', false, false);
+                    let mut items: Vec<String> = Vec::new();
+                    for (a2, r2) in &so.responses {
+                        items.push(show_resp(a2, r2));
+                        if r2.id.0 == ridb && *a2 == na {
+                            self.meta[mi].2 += 1;
+                        }
+                    }
+                    items.extend(self.drain(out));
+                    stats.bump("t.delivered-with-full-event-queue");
+                    if !self.shut && (self.meta[mi].2 != 1 || !items.iter().any(|s| s.ends_with(":talk:-"))) {
+                        out.push(format!("!MON C20 undeliverable-request-not-answered-exactly-once-empty sent={}", self.meta[mi].2));
+                    }
+                    // the object never reaches the application: keep the numbering of objects in step
+                    self.r.talks.push(None);
+                    self.meta.swap_remove(mi);
+                    self.meta.push((ridb.clone(), na.clone(), 1));
+                    out.push(format!("!OP tdeliverfull {} {} {}", hex::encode(id), sock_num(&a), rid));
+                    out.push(if items.is_empty() { "-".into() } else { items.join(" ") });
+                    return;
+                }
                 let _ = self.r.insts[&'T'].hout.try_send(HandlerOut::Request(na.clone(), Box::new(req)));
                 let so = self.r.observe('T', false, false);
                 let mut items = self.drain(out);
@@ -202,6 +230,27 @@ impl Runner for TalkRunner {
                 out.push(format!("!OP tdrop {}", i));
                 out.push(if items.is_empty() { "-".into() } else { items.join(" ") });
             }
+            // the application stops reading its event stream and N sessions are reported: the bounded
+            // stream (100 events) fills up
+            ["tevfill", n] => {
+                let n: u64 = n.parse().unwrap_or(0).min(200);
+                self.r.insts.get_mut(&'T').unwrap().events_paused = true;
+                let mut scratch = Vec::new();
+                for i in 0..n {
+                    self.r.step(&format!("sest T k{}:1:4:0 = i", 3000 + i), &mut scratch, stats);
+                }
+                stats.bump("t.event-queue-filled");
+                out.push("!OP tnop".into());
+                out.push("noop".into());
+            }
+            // the application catches up (what piled up holds no TALK request) and reads on
+            ["tevresume"] => {
+                let inst = self.r.insts.get_mut(&'T').unwrap();
+                inst.events_paused = false;
+                while inst.events.try_recv().is_ok() {}
+                out.push("!OP tnop".into());
+                out.push("noop".into());
+            }
             ["tshutdown"] => {
                 if self.shut {
                     return noop(out);
@@ -236,11 +285,29 @@ pub fn gen_case(rng: &mut Rng, tier: &str, _profile: &str, stats: &mut Stats) ->
     let n = rng.range(6, 40);
     let mut delivered = 0u64;
     let mut shut = false;
+    let mapped = rng.chance(1, 5);
+    if rng.chance(1, 6) {
+        // requests that arrive while the application's event stream is full
+        ops.push("tevfill 110".into());
+        for _ in 0..rng.range(1, 3) {
+            let n1 = rng.range(1, 8) as usize;
+            let rid = hex::encode(rng.bytes(n1));
+            ops.push(format!("tdeliver k{} 10.0.7.{}/9001 {} - 0102", rng.range(100, 104), rng.range(1, 4), rid));
+            delivered += 1;
+        }
+        ops.push("tevresume".into());
+    }
     for _ in 0..n {
         let c = rng.below(100);
         if delivered == 0 || c < 35 {
             let peer = rng.range(100, 104);
-            let a = format!("10.0.{}.{}/{}", rng.below(3), rng.range(1, 4), rng.range(1, 3) + 9000);
+            let (b2, b3, port) = (rng.below(3), rng.range(1, 4), rng.range(1, 3) + 9000);
+            // (some worlds see IPv4 peers at IPv4-mapped IPv6 addresses)
+            let a = if mapped {
+                format!("{}/{}", hex::encode(std::net::Ipv4Addr::new(10, 0, b2 as u8, b3 as u8).to_ipv6_mapped().octets()), port)
+            } else {
+                format!("10.0.{}.{}/{}", b2, b3, port)
+            };
             let n = rng.range(1, 8) as usize;
             let rid = hex::encode(rng.bytes(n));
             let n = rng.below(4) as usize;
